@@ -186,7 +186,9 @@ Ret(t) ==
                   \* before this call began is still open, yet the mark reached e
                   [] o.op = "lwm" -> [H EXCEPT !.bad = Flag(held, "MarkHeldBack")]
                   [] OTHER -> H
-        /\ SetL(t, [L[t] EXCEPT !.opi = @ + 1,
+        \* locals that are dead after the call are reset (keeps the state space small)
+        /\ SetL(t, [L[t] EXCEPT !.opi = @ + 1, !.v = 0, !.i = 0, !.n = 0, !.min = 0, !.idx = 0, !.snap = {},
+                                !.e = 0,
                                 !.retired = IF o.op = "tick" THEN @ \cup {<<x, L[t].e>> : x \in L[t].pend} ELSE @,
                                 !.pend = IF o.op = "tick" THEN {} ELSE @])
   /\ Goto(t, "idle")
@@ -341,7 +343,7 @@ Reclaim(t) ==
          Sorted(S) == IF S = {} THEN <<>> ELSE LET x == CHOOSE y \in S : \A z \in S : y <= z IN <<x>> \o Sorted(S \ {x})
      IN /\ ms' = Acc(ms, objs)
         /\ H' = [H EXCEPT !.freed = @ \cup objs]
-        /\ SetL(t, [L[t] EXCEPT !.retired = {q \in @ : q[2] > L[t].mark}, !.opi = @ + 1])
+        /\ SetL(t, [L[t] EXCEPT !.retired = {q \in @ : q[2] > L[t].mark}, !.mark = 0, !.opi = @ + 1])
         /\ ev' = [NoEv EXCEPT !.t = t, !.k = "reclaim", !.vals = Sorted(objs), !.v = L[t].mark]
   /\ UNCHANGED <<cfg, pc, G>>
 
